@@ -263,6 +263,18 @@ func c10Generate(thorough bool) []c10Case {
 		add("comments", "CREATE TABLE t (a, b)", "CREATE INDEX i1 ON t (b "+cm+" , a)")
 		add("comments", "CREATE TABLE t (a, b)", "CREATE UNIQUE INDEX i1 ON t "+cm+" (b "+cm+" DESC)")
 	}
+	// F9: names that carry their own quote character (doubled inside), next to names in every other quoting
+	// style: how one name is quoted must not change how the next one is read
+	for _, n1 := range []string{"[x]", `"x"`, "`x`", "'x'", "x", `"x""y"`} {
+		for _, n2 := range []string{`"a""b"`, "`a``b`", `"a""b""c"`, "`a``b``c`", "'a''b'", `"a b"`, "`a[b`", `"a]b"`, `[a"b]`, "`n``INTEGER`", `"n""INTEGER"`, `""""`, "````"} {
+			add("quoted-names", "CREATE TABLE t ("+n1+" INT, "+n2+", c)")
+			add("quoted-names", "CREATE TABLE t ("+n1+", "+n2+" PRIMARY KEY, c)")
+			add("quoted-names", "CREATE TABLE t ("+n1+", "+n2+" UNIQUE)")
+			add("quoted-names", "CREATE TABLE t ("+n2+" PRIMARY KEY, "+n1+") WITHOUT ROWID")
+			add("quoted-names", "CREATE TABLE t ("+n1+", "+n2+" TEXT, UNIQUE ("+n2+" DESC, "+n1+"))")
+			add("quoted-names", "CREATE TABLE t ("+n1+", "+n2+", c)", "CREATE INDEX i1 ON t ("+n2+", "+n1+")")
+		}
+	}
 	// F7: table options after the closing parenthesis (STRICT exists since 3.37; a definition sqlittle cannot
 	// interpret must be rejected, not read as if the options were not there)
 	for _, opt := range []string{" STRICT", " WITHOUT ROWID, STRICT", " STRICT, WITHOUT ROWID", " strict , without rowid"} {
@@ -417,7 +429,7 @@ func c10Little(s *sdb.Schema) *c10View {
 }
 
 func runC10(r *ev.Run) {
-	r.Rule = "grammar-directed enumeration of CREATE TABLE statements (1-3 columns; types {none, INTEGER, integer, INT, TEXT, INTEGER(5)}; every ordered list of <=2 (3 thorough) column constraints from 15; 0-2 table constraints from 20 incl. duplicate/overlapping/re-ordered/collated/DESC ones and CONSTRAINT names; WITHOUT ROWID; 7 identifier spellings incl. the string literal SQLite accepts where a name is expected; identifiers, type names and keywords that differ only in non-ASCII case - SQLite folds ASCII only) and CREATE INDEX statements (UNIQUE, column permutations, per-column COLLATE/DESC, partial, expression columns, one or two indexes) on 5 base tables; comments between any two tokens and around any 1-3 tokens in 9 forms (/*/ opens a comment, open comments, -- to the newline, quotes inside comments); the index families and a quarter of the DESC-bearing table definitions once more in a legacy-format database (schema format 3: DESC is ignored); only statements real SQLite accepts are judged; oracle: PRAGMA table_xinfo/index_list/index_xinfo + a behavioural rowid-alias probe + reading the probe row back, through the table and through every listed index. A definition sqlittle rejects is fine; an explicit index it leaves out is fine; every index it reports must match SQLite's index of that name; every automatic index must be reported. non-trivial = statements with at least one index or a primary key"
+	r.Rule = "grammar-directed enumeration of CREATE TABLE statements (1-3 columns; types {none, INTEGER, integer, INT, TEXT, INTEGER(5)}; every ordered list of <=2 (3 thorough) column constraints from 15; 0-2 table constraints from 20 incl. duplicate/overlapping/re-ordered/collated/DESC ones and CONSTRAINT names; WITHOUT ROWID; 7 identifier spellings incl. the string literal SQLite accepts where a name is expected; identifiers, type names and keywords that differ only in non-ASCII case - SQLite folds ASCII only) and CREATE INDEX statements (UNIQUE, column permutations, per-column COLLATE/DESC, partial, expression columns, one or two indexes) on 5 base tables; names with doubled quote characters inside, in every quoting style, next to names of every other style; comments between any two tokens and around any 1-3 tokens in 9 forms (/*/ opens a comment, open comments, -- to the newline, quotes inside comments); the index families and a quarter of the DESC-bearing table definitions once more in a legacy-format database (schema format 3: DESC is ignored); only statements real SQLite accepts are judged; oracle: PRAGMA table_xinfo/index_list/index_xinfo + a behavioural rowid-alias probe + reading the probe row back, through the table and through every listed index. A definition sqlittle rejects is fine; an explicit index it leaves out is fine; every index it reports must match SQLite's index of that name; every automatic index must be reported. non-trivial = statements with at least one index or a primary key"
 	cases := c10Generate(r.Thorough())
 	r.Set("generated_statements", len(cases))
 	// one SQLite connection per worker, reused (the table is dropped between cases)
